@@ -54,11 +54,12 @@ class C13(flow.Spec):
             out.append(("inflight %d %d" % (n, g), {"apply-in-flight-at-shutdown"}))
         # the same on a REAL node (start_with_config) shut down exactly like command/agent.rs:
         # kind 0 = the change handler applies a version, kind 1 = the buffered-apply loop does
-        real = [(0, 300, 0), (1, 2000, 0), (1, 20000, 100), (0, 3000, 10)]
+        # kind 2 = a local transaction through the HTTP API, acknowledged, then the signal (known finding)
+        real = [(0, 300, 0), (1, 2000, 0), (1, 20000, 100), (0, 3000, 10), (2, 1, 0), (2, 1, 500)]
         if tier != "quick":
             real += [(k, n, g) for k in (0, 1) for n in (100, 1000, 8000) for g in (0, 5, 50, 300)]
         for k, n, g in real:
-            out.append(("realstop %d %d %d" % (k, n, g), {"real-node-shutdown", "buffered-apply-loop" if k else "change-handler"}))
+            out.append(("realstop %d %d %d" % (k, n, g), {"real-node-shutdown", ["change-handler", "buffered-apply-loop", "local-transaction-acknowledged"][k]}))
         return out
 
     def phases(self, case):
@@ -189,6 +190,8 @@ class C13(flow.Spec):
         return False if self.failures(case, impl_obs) else None
 
     def classify(self, case, impl_obs):
+        if case.startswith("realstop 2 ") and self.failures(case, impl_obs) == [(0, "stale")]:
+            return "write-acknowledged-at-shutdown"
         if case.startswith(("inflight", "realstop")):
             return None
         fails = self.failures(case, impl_obs)
